@@ -52,10 +52,12 @@ ebpps_sample<T,A>::ebpps_sample(std::vector<T, A>&& data, optional<T>&& partial_
 template<typename T, typename A>
 template<typename TT>
 void ebpps_sample<T,A>::replace_content(TT&& item, double theta) {
-  c_ = theta;
+  // theta is an inclusion probability; a value a few ulps above 1.0 is round-off of rho * weight and
+  // means a full item (stored as a partial item with c_ > 1 it would break data_.size() == floor(c_))
+  c_ = std::min(theta, 1.0);
   data_.clear();
   partial_item_.reset();
-  if (theta == 1.0) {
+  if (c_ == 1.0) {
     data_.emplace_back(std::forward<TT>(item));
   } else {
     partial_item_.emplace(std::forward<TT>(item));
